@@ -18,7 +18,7 @@ RULE = ('legal peer streams built by the reference encoder (contact header, SESS
         'one (stream, cut pattern); non-trivial = at least one cut falls strictly inside a message; distinct = (stream digest, cut set).')
 COMPONENTS = tc.COMPONENTS
 PROBES = ('cut.inside_message', 'cut.inside_contact', 'probe.keepalive_last', 'probe.zero_length_segment', 'probe.ext_items',
-          'mode.exhaustive-window', 'mode.single', 'mode.dribble', 'mode.boundaries', 'mode.random', 'probe.victim_transfer_acked')
+          'mode.exhaustive-window', 'mode.single', 'mode.dribble', 'mode.boundaries', 'mode.random', 'probe.victim_transfer_acked', 'probe.non_ascii_node_id')
 ASSUMPTIONS = ['streams follow the legal grammar with known message types and version 4 (others belong to C17)',
                'a chunk is read by the agent in one recv when it is no larger than CHUNK_SIZE; larger chunks are read in CHUNK_SIZE pieces']
 CHUNK = 20
@@ -28,7 +28,7 @@ BUDGET = {'quick': 40, 'thorough': 600}
 def gen(ch, tier):
     role = ch.choice('role', ('passive', 'active'))
     mru = ch.choice('mru', (64, 1000, 10 * 1024**2))
-    cfg = dict(node_id='dtn://v/', keepalive_time=0, idle_time=0, segment_size_mru=mru,
+    cfg = dict(node_id=ch.choice('vnode', ('dtn://v/', 'dtn://v/', 'dtn://n\u00f6de-\u20ac/')), keepalive_time=0, idle_time=0, segment_size_mru=mru,
                segment_size_tx_initial=ch.choice('txi', (16, 200, 104857)), tls_enable=False, enable_test=[])
     items = [dict(kind='CONTACT', flags=0)]
     ext = []
@@ -280,6 +280,14 @@ def _drive(run, plan, har):
                 run.viols.append(('fields', 'reassembled-body', 'transfer %s popped with %d octets, sent %d' % (bid, len(data), len(want[bid]))))
     if har.vdec.error is not None:
         run.viols.append(('codec', 'victim-output-undecodable', 'reference decoder rejects the agent output at offset %d: %s' % har.vdec.error))
+    else:
+        # what the agent encoded must decode to the fields it was configured with, and leave no partial message behind
+        inits = [msg for msg in har.vmsgs if msg['kind'] == 'SESS_INIT']
+        want = plan['cfg']['node_id'].encode('utf-8')
+        if inits and inits[0]['nodeid'] != want:
+            run.viols.append(('codec', 'sess-init-nodeid', 'reference decoder reads node id %r from the agent SESS_INIT, configured is %r' % (inits[0]['nodeid'], want)))
+        elif har.vdec.pending() and not har.hang:
+            run.viols.append(('codec', 'victim-output-partial-message', 'the agent output ends with %d octets that are not a complete message for the reference decoder' % har.vdec.pending()))
 
 
 def judge(run):
@@ -304,6 +312,8 @@ def describe(run):
         counters['probe.ext_items'] = 1
     if stats.get('acked'):
         counters['probe.victim_transfer_acked'] = 1
+    if plan['cfg']['node_id'] != 'dtn://v/':
+        counters['probe.non_ascii_node_id'] = 1
     static = b''.join(part for (part, _ix) in stream)
     bounds = []
     pos = 0
